@@ -123,11 +123,16 @@ def body(scn):
                 sample=dict(runlevel.small(scn), ncalls=len(tr.calls)))
 
 
+N_EDGE = {"quick": 96, "thorough": 1500}
+
+
 def plan(tier):
-    return [("runs", 16)]
+    return [("runs", 16), ("logedge", 8)]
 
 
 def run_part(res, part, tier, seed, shard, nshards):
+    if part == "logedge":
+        return runlevel.sweep(res, scenario.logedge_profile(), N_EDGE[tier], seed + 17, shard, nshards, body)
     runlevel.sweep(res, PROFILE if tier == "quick" else PROFILE_T, N[tier], seed, shard, nshards, body)
 
 
